@@ -227,6 +227,7 @@ static inline void myth_sleep_stack_destroy(myth_sleep_stack_t * s) {
 
 static inline myth_sleep_queue_item_t myth_sleep_stack_pop(myth_sleep_stack_t * s) {
   while (1) {
+    MYTH_VERIF_POINT(mythv_p_sstack_load, s->top);
     myth_sleep_queue_item_t x = s->top;
     if (x == 0) return x;
     if (__sync_bool_compare_and_swap(&s->top, x, x->next)) {
@@ -237,6 +238,7 @@ static inline myth_sleep_queue_item_t myth_sleep_stack_pop(myth_sleep_stack_t * 
 
 static inline long myth_sleep_stack_push(myth_sleep_stack_t * s, myth_sleep_queue_item_t x) {
   while (1) {
+    MYTH_VERIF_POINT(mythv_p_sstack_load, s->top);
     myth_sleep_queue_item_t t = s->top;
     x->next = t;
     if (__sync_bool_compare_and_swap(&s->top, t, x)) {
